@@ -149,8 +149,12 @@ def Sig.lookup (s : Sig) (l : Layer) (i : String) : Entry :=
   | some (e, _) => e
   | none => if s.virt.mem i then .term (.inp i) else .broken [(l.index, i)]
 
+def Entry.missing : Entry → List (Nat × String)
+  | .broken m => m
+  | .term _ => []
+
 def combine (f : Option String) (es : List Entry) : Entry :=
-  let missing := es.flatMap fun e => match e with | .broken m => m | .term _ => []
+  let missing := es.flatMap Entry.missing
   if !missing.isEmpty then .broken missing.eraseDups
   else
     let ts := es.filterMap fun e => match e with | .term t => some t | .broken _ => none
